@@ -73,6 +73,7 @@ type vlBlock struct {
 	No        uint64 `json:"no"`        // exec mode: block number (0 = previous+1)
 	Validator bool   `json:"validator"` // exec mode: abort at the first failing tx (validator rule)
 	Txs       []vlTx `json:"txs"`
+	CidMut    string `json:"cidmut"` // chain mode: the block header (and its txs) name a chain id differing in this field
 }
 
 type vlCase struct {
@@ -599,6 +600,27 @@ func (e *vlEnv) runCase(w *bufio.Writer) {
 		var bi *types.BlockHeaderInfo
 		if c.Mode == "chain" {
 			bi = types.NewBlockHeaderInfoFromPrevBlock(prev, ts, types.DummyBlockVersionner(c.Version))
+			if blk.CidMut != "" {
+				var id types.ChainID
+				if err := id.Read(bi.ChainId); err != nil {
+					panic(err)
+				}
+				switch blk.CidMut {
+				case "mainnet":
+					id.MainNet = !id.MainNet
+				case "publicnet":
+					id.PublicNet = !id.PublicNet
+				case "magic":
+					id.Magic = id.Magic + "x"
+				case "consensus":
+					id.Consensus = "raft"
+				}
+				b, err := id.Bytes()
+				if err != nil {
+					panic(err)
+				}
+				bi.ChainId = b
+			}
 		} else {
 			no := blk.No
 			if no == 0 {
